@@ -7,6 +7,7 @@ use serde_json::json;
 
 pub fn run(r: &mut Report) {
     crate::c01::signature_value_shapes(r);
+    attributed_signature_only(r);
     let owner = key(1);
     let ka = key(2);
     let kb = key(3);
@@ -189,3 +190,28 @@ pub fn run(r: &mut Report) {
         }
     }
 }
+
+/// C02 / C12: a link counts for the functionary it is attributed to only if THAT functionary's key made a valid signature on it
+pub fn attributed_signature_only(r: &mut Report) {
+    let owner = key(1); let ka = key(2); let kb = key(3);
+    let la = link("s", &[], &[("x", 1)]);
+    for (shape, junk_kind) in [("b-entry-junk-then-a-genuine", "junk"), ("b-entry-copy-of-a's-signature-then-a-genuine", "copy"), ("a-genuine-then-b-entry-junk", "junk-last"), ("only-b-entry-copy-of-a's-signature", "copy-only")] {
+        for threshold in [1u32, 2] { for a_also_delivers in [true, false] {
+            let d = tmpdir();
+            let genuine = signed_link(&la, &[&ka]);
+            let g = serde_json::to_value(&genuine.signatures[0]).unwrap();
+            let b_id = serde_json::to_value(kb.key_id()).unwrap();
+            let b_entry = json!({"keyid": b_id, "sig": if junk_kind.starts_with("junk") { json!("00".repeat(64)) } else { g["sig"].clone() }});
+            let mut v = serde_json::to_value(&genuine).unwrap();
+            v["signatures"] = match junk_kind { "junk" | "copy" => json!([b_entry, g]), "junk-last" => json!([g, b_entry]), _ => json!([b_entry]) };
+            std::fs::write(d.path().join(format!("s.{}.link", kb.key_id().prefix())), v.to_string()).unwrap();
+            if a_also_delivers { write_link(d.path(), "s", ka.key_id(), &genuine); }
+            let lay = signed_layout(&layout(vec![step("s", threshold, &[&ka, &kb], allow_all(), allow_all())], vec![], &[&ka, &kb], 30), &[&owner]);
+            let res = no_panic(|| in_toto_verify(&lay, owner_keys(&[&owner]), d.path().to_str().unwrap(), None).is_ok());
+            // only a's own link can count: enough for threshold 1 when a delivers it, never for threshold 2
+            let expect = threshold == 1 && a_also_delivers;
+            r.case("link-filed-for-b-that-only-a-signed", json!({"signatures_in_b's_file": shape, "threshold": threshold, "a_delivers_its_own_link": a_also_delivers}), if expect { "Ok" } else { "Err" }, format!("{:?}", res), res == Ok(expect));
+        } }
+    }
+}
+
